@@ -8,6 +8,7 @@ S = 'photutils/segmentation/catalog.py::SourceCatalog'
 
 
 def register(reg):
+    register_aperture_data(reg)
     register_mirror(reg)
     register_fluxerr(reg)
     box = '(0, data_cutout.shape[0]), (0, data_cutout.shape[1])'
@@ -18,7 +19,7 @@ def register(reg):
         reg.add(Contract(
             target=f'{S}._make_cutout_data_mask', props=['C07'], kind='staticmethod', tag=tag,
             params={'data_cutout': ('arr', 2, 'real', 'nonfinite'), 'mask_cutout': mspec},
-            requires=mreq,
+            requires=mreq, returns=('arr', 2, 'bool'),
             ensures=[('shape', 'result.shape == data_cutout.shape'),
                      ('masked-iff-nonfinite-or-input-mask',
                       f'forall(lambda i, j: iff(result[i, j], not isfinite_at(data_cutout, i, j)'
@@ -185,6 +186,7 @@ def register_mirror(reg):
             params={'data': ('arr', 2, 'real', 'nonempty'), 'replace_mask': ('arr', 2, 'bool', 'nonempty'),
                     'xycenter': ('tuple', 'real', 'real'), 'mask': mspec},
             requires=['replace_mask.shape == data.shape', 'xycenter[0] >= 0', 'xycenter[1] >= 0'] + mreq,
+            returns=('arr', 2, 'real'),
             replay={'call': 'photutils.segmentation.utils:_mask_to_mirrored_value',
                     'args': ['data', 'replace_mask', 'xycenter', 'mask']},
             ensures=[
@@ -210,3 +212,88 @@ def register_mirror(reg):
                      ('xbad = xmasked[mirror_mask]', 'xbad = xmasked[~mirror_mask]')]
             + ([('mirror_mask |= mask[ymirror, xmirror]', 'mirror_mask |= mask[ymasked, xmasked]')] if mcl else []),
         ))
+
+
+def register_aperture_data(reg):
+    """_make_aperture_data (the cutouts every circular / Kron / flux-fraction measurement of a row
+    is made from): the data under the aperture box minus *this row's* local background, the total
+    mask there (input mask, non-finite data, and -- apermask_method='mask' -- the pixels of *other*
+    labels), the error cutout, and the centroid in cutout coordinates; with 'correct' the
+    neighbours' pixels are replaced through _mask_to_mirrored_value about that centroid."""
+    bb = 'aperture_bbox'
+    DIS = (f'{bb}.ixmin >= self._data.shape[1] or {bb}.iymin >= self._data.shape[0] or '
+           f'{bb}.ixmax <= 0 or {bb}.iymax <= 0')
+    oy, ox = f'max({bb}.iymin, 0)', f'max({bb}.ixmin, 0)'
+    box = (f'(0, min({bb}.iymax, self._data.shape[0]) - {oy}), '
+           f'(0, min({bb}.ixmax, self._data.shape[1]) - {ox})')
+    at = f'j + {oy}, i + {ox}'
+    other = f'(self._segment_img.data[{at}] != label and self._segment_img.data[{at}] != 0)'
+    bad = f'(self._mask[{at}] or not isfinite_at(self._data, {at}))'
+    for method in ('none', 'mask', 'correct'):
+        rec = 'SourceCatalog@aper-' + method
+        reg.record('SegmentationImageData', {'data': ('arr', 2, 'int', 'nonempty')})
+        reg.record(rec, {'_data': ('arr', 2, 'real', 'nonfinite', 'nonempty'),
+                         '_mask': ('arr', 2, 'bool', 'nonempty'),
+                         '_error': ('arr', 2, 'real', 'nonempty'),
+                         '_segment_img': 'SegmentationImageData',
+                         'apermask_method': ('const', method)}, bases=('SourceCatalog',))
+        ens = [
+            ('none-iff-the-box-misses-the-image', f'iff(result[0] is None, {DIS})'),
+            ('centroid-in-cutout-coordinates',
+             f'implies(not ({DIS}), result[3][0] == xcentroid - {ox} and result[3][1] == ycentroid - {oy})'),
+            ('total-mask' + ('-with-other-labels' if method == 'mask' else ''),
+             f'implies(not ({DIS}), forall(lambda j, i: iff(result[2][j, i], {bad}'
+             + (f' or {other}' if method == 'mask' else '') + f'), {box}))'),
+            ('error-cutout' + ('-off-the-neighbours' if method == 'correct' else ''),
+             f'implies(not ({DIS}), forall(lambda j, i: '
+             + (f'implies(not {other}, ' if method == 'correct' else '(')
+             + f'result[1][j, i] == self._error[{at}]), {box}))'),
+            ('data-minus-this-rows-local-background' + ('-off-the-neighbours' if method == 'correct' else ''),
+             f'implies(not ({DIS}), forall(lambda j, i: '
+             + (f'implies(not {other}, ' if method == 'correct' else '(')
+             + f'result[0][j, i] == self._data[{at}] - local_background), {box}))'),
+        ]
+        if method == 'correct':
+            H = f'(min({bb}.iymax, self._data.shape[0]) - {oy})'
+            W = f'(min({bb}.ixmax, self._data.shape[1]) - {ox})'
+            mj = f'(2 * int(ycentroid - {oy} + 0.5) - j)'
+            mi = f'(2 * int(xcentroid - {ox} + 0.5) - i)'
+            off = f'({mi} < 0 or {mj} < 0 or {mi} >= {W} or {mj} >= {H})'
+            mat = f'{mj} + {oy}, {mi} + {ox}'
+            mother = (f'(self._segment_img.data[{mat}] != label and '
+                      f'self._segment_img.data[{mat}] != 0)')
+            mbad = f'(self._mask[{mat}] or not isfinite_at(self._data, {mat}))'
+            ens += [
+                ('neighbour-pixel-with-mirror-off-the-cutout-is-zero',
+                 f'implies(not ({DIS}), forall(lambda j, i: implies({other} and {off}, '
+                 f'result[0][j, i] == 0 and result[1][j, i] == 0), {box}))'),
+                ('neighbour-pixel-takes-the-mirrored-pixel-of-this-rows-cutout',
+                 f'implies(not ({DIS}), forall(lambda j, i: implies({other} and not {off} and not '
+                 f'{mother} and not {mbad}, result[0][j, i] == self._data[{mat}] - local_background '
+                 f'and result[1][j, i] == self._error[{mat}]), {box}))'),
+                ('neighbour-pixel-with-unusable-mirror-is-zero',
+                 f'implies(not ({DIS}), forall(lambda j, i: implies({other} and not {off} and '
+                 f'({mother} or {mbad}), result[0][j, i] == 0 and result[1][j, i] == 0), {box}))'),
+            ]
+        reg.add(Contract(
+            target=f'{S}._make_aperture_data', props=['C07', 'C08'], kind='method', tag=method,
+            params={'self': rec, 'label': 'pos', 'xcentroid': 'real', 'ycentroid': 'real',
+                    'aperture_bbox': 'BoundingBox', 'local_background': 'real',
+                    'make_error': ('const', True)},
+            requires=['self._mask.shape == self._data.shape', 'self._error.shape == self._data.shape',
+                      'self._segment_img.data.shape == self._data.shape',
+                      f'{bb}.ixmin < {bb}.ixmax', f'{bb}.iymin < {bb}.iymax',
+                      f'xcentroid >= {ox}', f'ycentroid >= {oy}'],
+            ensures=ens,
+            mutants=[('- local_background', '+ local_background'),
+                     ('xcentroid - max(0, aperture_bbox.ixmin)', 'xcentroid - max(0, aperture_bbox.iymin)'),
+                     ('self._error[slc_lg]', 'self._error[slc_sm]')]
+            + ([('segment_img != label', 'segment_img == label'),
+                ('mask = data_mask | segm_mask', 'mask = data_mask & segm_mask')] if method == 'mask' else [])
+            + ([('data = _mask_to_mirrored_value(data, segm_mask, cutout_xycen,',
+                 'data = _mask_to_mirrored_value(data, segm_mask, (xcentroid, ycentroid),'),
+                ('error = _mask_to_mirrored_value(error, segm_mask, cutout_xycen,\n                                                mask=mask)',
+                 'error = _mask_to_mirrored_value(error, segm_mask, cutout_xycen,\n                                                mask=None)')]
+               if method == 'correct' else []),
+        ))
+
